@@ -48,7 +48,7 @@ def generate():
 # ------------------------------------------------------------------ loading generated modules
 def load_module(tmp, name, src):
     path = os.path.join(tmp, name + '.py')
-    with open(path, 'w') as f:
+    with open(path, 'w', encoding='utf-8', newline='\n') as f:
         f.write(src)
     spec = importlib.util.spec_from_file_location(name, path)
     mod = importlib.util.module_from_spec(spec)
@@ -181,9 +181,9 @@ class Harness(object):
     def intern(self, name):
         return self.names.setdefault(name, len(self.names) + 1)
 
-    def add_case(self, term_fmt, info):
+    def add_case(self, kind, rest, info):
         i = len(self.cases)
-        self.cases.append(term_fmt % i)
+        self.cases.append('%s %d %s' % (kind, i, rest))
         self.case_info[i] = info
 
     # --- the property, on one function object
@@ -307,7 +307,7 @@ class Harness(object):
                 'mklam %d %d %d %s' % (lid, minl, min(maxl, 100000), coq_sig(sig)) for (lid, minl, maxl, sig, n) in lams))
                 for ln, lams in table if ln <= d + 3)
             exp = 'None' if raised else '(Some %d)' % (found_id if found_id >= 0 else 99999)
-            self.add_case('CLam %%d %s %d %s %s' % (nodes, d, coq_sig(spec), exp),
+            self.add_case('CLam', '%s %d %s %s' % (nodes, d, coq_sig(spec), exp),
                           ('lambda', ctx.get('module'), key, d, 'raised' if raised else found_id))
         if raised:
             self.stats['lambda_raised'] += 1
@@ -331,9 +331,9 @@ class Harness(object):
     def text_cases(self, text, what, lexcase=True):
         parser = self.parser
         if '$' in text or any(ord(c) > 126 or (ord(c) < 32 and c not in '\n\t') for c in text):
-            return
+            return False      # outside the modelled alphabet: judged by the oracle only
         s = vlib.coq_str(text)
-        self.add_case('CUnfold %%d %s %s' % (s, vlib.coq_str(parser._unfold_continuations(text))), ('unfold', what, text))
+        self.add_case('CUnfold', '%s %s' % (s, vlib.coq_str(parser._unfold_continuations(text))), ('unfold', what, text))
         try:
             exp = '(Some %s)' % vlib.coq_str(parser.dedent_block(text))
         except self.errors.UnsupportedLanguageElementError:
@@ -341,16 +341,17 @@ class Harness(object):
         except Exception as e:   # noqa
             exp = None
         if exp is not None:
-            self.add_case('CDedent %%d %s %s' % (s, exp), ('dedent', what, text))
-        self.add_case('CSafe %%d %s %s' % (s, vlib.coq_bool(not L.unsafe_continuations(text))), ('safe', what, text))
+            self.add_case('CDedent', '%s %s' % (s, exp), ('dedent', what, text))
+        self.add_case('CSafe', '%s %s' % (s, vlib.coq_bool(not L.unsafe_continuations(text))), ('safe', what, text))
         if lexcase:
             try:
                 r = L.render_tokenize(text)
             except Exception:   # noqa
                 r = None
             if r is not None:
-                self.add_case('CLex %%d %s %s' % (s, vlib.coq_str(r)), ('lex', what, text))
+                self.add_case('CLex', '%s %s' % (s, vlib.coq_str(r)), ('lex', what, text))
         self.run.nontriv(('text', hash(text)))
+        return True
 
     # --- one generated module
     def do_module(self, src, ctx, text_budget):
@@ -381,8 +382,8 @@ class Harness(object):
                     except Exception:   # noqa
                         continue
                     if len(blk) < 1500:
-                        text_budget[0] -= 1
-                        self.text_cases(blk, '%s:%s' % (name, key))
+                        if self.text_cases(blk, '%s:%s' % (name, key)):
+                            text_budget[0] -= 1
         sys.modules.pop(name, None)
 
 
@@ -451,8 +452,8 @@ def _check(run, tmp):
         t = ''.join(rnd.choice(['\\', '\n', ' ', 'a', '#', "'", '"', '(', ')', '\t', '\\\n', "'''", 'r'])
                     for _ in range(rnd.randint(1, 30)))
         s = vlib.coq_str(t)
-        h.add_case('CUnfold %%d %s %s' % (s, vlib.coq_str(h.parser._unfold_continuations(t))), ('unfold', 'soup', t))
-        h.add_case('CSafe %%d %s %s' % (s, vlib.coq_bool(not L.unsafe_continuations(t))), ('safe', 'soup', t))
+        h.add_case('CUnfold', '%s %s' % (s, vlib.coq_str(h.parser._unfold_continuations(t))), ('unfold', 'soup', t))
+        h.add_case('CSafe', '%s %s' % (s, vlib.coq_bool(not L.unsafe_continuations(t))), ('safe', 'soup', t))
     run.extra.update(h.stats)
     run.extra['correspondence_cases'] = len(h.cases)
     for f in h.failures[:3]:
